@@ -440,6 +440,37 @@ theorem smk_owes (hs : StrictWeak cmp) {L : List (K × V)} (hL : Sorted cmp L) (
     simp only [smk, hstart, h1, Option.map_some, Option.some.injEq] at hk
     rw [← hk]; exact h2
 
+/-- the first element `dropWhile (¬ q)` leaves satisfies `q` -/
+theorem head_dropWhile_sat {β : Type} (q : β → Bool) (D : List β) {h : β}
+    (hh : (D.dropWhile (fun y => !q y)).head? = some h) : q h = true := by
+  induction D with
+  | nil => simp at hh
+  | cons a D ih =>
+    by_cases ha : q a = true
+    · simp only [List.dropWhile_cons, ha, Bool.not_true, Bool.false_eq_true, if_false, List.head?_cons,
+        Option.some.injEq] at hh
+      rw [← hh]; exact ha
+    · have ha' : q a = false := by simpa using ha
+      simp only [List.dropWhile_cons, ha', Bool.not_false, if_true] at hh
+      exact ih hh
+
+/-- **a fresh `Range` / `RangeReverse` iterator starts inside its near bound** — on any map, sorted or not, whether or
+not any entry lies inside the bound (audit C02-F7: `smk_owes` gave this only for maps that contain an entry inside
+the near bound) -/
+theorem smk_near (cmp : K → K → Int) (L : List (K × V)) (fwd : Bool) (lo hi : Bound K) :
+    ∀ k, (smk cmp L fwd lo hi).resume = some k → nearFn cmp fwd lo hi k = true := by
+  intro k hk
+  have hstart : startOf cmp L fwd lo hi = (dlist L fwd).dropWhile (fun y => !nearFn cmp fwd lo hi y.1) := by
+    cases fwd <;> simp [startOf, dlist, nearFn]
+  simp only [smk, hstart] at hk
+  cases hh : ((dlist L fwd).dropWhile (fun y => !nearFn cmp fwd lo hi y.1)).head? with
+  | none => rw [hh] at hk; cases hk
+  | some h =>
+    rw [hh] at hk
+    simp only [Option.map_some, Option.some.injEq] at hk
+    rw [← hk]
+    exact head_dropWhile_sat (fun y : K × V => nearFn cmp fwd lo hi y.1) (dlist L fwd) hh
+
 /-- "inside its bounds", near side: an iterator whose resume key is inside the near bound yields only keys inside
 it and keeps its resume key inside -/
 theorem snext_near (hs : StrictWeak cmp) {L : List (K × V)} (hL : Sorted cmp L) (lo hi : Bound K) {it it' : SIter K}
